@@ -38,7 +38,7 @@ Definition tame3_op (o : op) : Prop :=
   | UMarkNodeDeleting _ | DeliverNodeTombstone | RelistNodes => False
   | UCreateNode _ _ cs => cs = []
   | UCreateCC obj => good_obj obj
-  | Construct s1 s2 _ => (forall s, s1 = Some s -> wf_cidr s) /\ (forall s, s2 = Some s -> wf_cidr s)
+  | Construct s1 s2 _ dp => (forall s, s1 = Some s -> wf_cidr s) /\ (forall s, s2 = Some s -> wf_cidr s) /\ wf_dp dp
   | _ => True
   end.
 Lemma tame3_wf o : tame3_op o -> wf_op o.
@@ -220,16 +220,26 @@ Proof. unfold reserved. rewrite apply_patch_ctl. tauto. Qed.
 Lemma apply_update_cc_reserved w o out n c : reserved (apply_update_cc w o out) n c <-> reserved w n c.
 Proof. unfold reserved. rewrite apply_update_cc_ctl. tauto. Qed.
 
-Lemma apply_effects_hinv fx : forall w nm cs, HInv w -> Forall wf_cidr cs ->
+Lemma apply_create_cc_hinv w o out : HInv w -> good_obj o -> HInv (apply_create_cc w o out).
+Proof.
+  intros I Hg. pose proof (apply_create_cc_winv w o out (h_w w I) Hg) as W'.
+  destruct (apply_create_cc_frame w o out) as (E1 & E2 & _ & E3 & _ & _ & E4 & E6 & E5 & _).
+  apply (hinv_same w); assumption.
+Qed.
+Lemma apply_create_cc_reserved w o out n c : reserved (apply_create_cc w o out) n c <-> reserved w n c.
+Proof. unfold reserved. rewrite apply_create_cc_ctl. tauto. Qed.
+
+Lemma apply_effects_hinv fx : forall w nm cs, HInv w -> Forall wf_cidr cs -> fx_good fx ->
   (forall nm' cs' o, In (FxPatch nm' cs' o) fx -> nm' = nm /\ cs' = cs) ->
   (forall n2 d, holder w n2 d -> n2 <> nm -> forall x, In x cs -> overlapb x d = false) ->
   ((exists o, In (FxPatch nm cs o) fx /\ (o = POk \/ o = PTimeoutApplied)) -> forall x, In x cs -> reserved w nm x) ->
   HInv (apply_effects w fx).
 Proof.
-  induction fx as [|e fx IH]; intros w nm cs I Hw Hsame Hav Hres; [exact I|].
+  induction fx as [|e fx IH]; intros w nm cs I Hw Hg Hsame Hav Hres; [exact I|].
+  pose proof (fx_good_tail _ _ Hg) as Hg'.
   destruct e; cbn [apply_effects].
   - destruct (Hsame _ _ _ (or_introl eq_refl)) as [-> ->].
-    apply (IH _ nm cs); [|exact Hw| | |].
+    apply (IH _ nm cs); [|exact Hw|exact Hg'| | |].
     + apply apply_patch_hinv; [exact I|exact Hw|exact Hav|]. intros Ho. apply Hres. exists o. split; [left; reflexivity|exact Ho].
     + intros nm' cs' o' Hin. apply (Hsame nm' cs' o'). right. exact Hin.
     + intros n2 d Hh Hne. apply (Hav n2 d); [|exact Hne]. eapply apply_patch_other_holders3; eassumption.
@@ -238,12 +248,14 @@ Proof.
     intros (o' & Hin & Ho'). apply Hres. exists o'. split; [right; exact Hin|exact Ho'].
   - apply (IH _ nm cs); try assumption. intros; eapply Hsame; right; eassumption.
     intros (o' & Hin & Ho'). apply Hres. exists o'. split; [right; exact Hin|exact Ho'].
-  - apply (IH _ nm cs); [apply apply_update_cc_hinv; exact I|exact Hw| | |].
+  - apply (IH _ nm cs); [apply apply_update_cc_hinv; exact I|exact Hw|exact Hg'| | |].
     + intros; eapply Hsame; right; eassumption.
     + intros n2 d Hh. apply (Hav n2 d). apply apply_update_cc_holders in Hh. exact Hh.
     + intros (o'' & Hin & Ho') x Hx. apply apply_update_cc_reserved. apply Hres; [|exact Hx]. exists o''. split; [right; exact Hin|exact Ho'].
-  - apply (IH _ nm cs); try assumption. intros; eapply Hsame; right; eassumption.
-    intros (o'' & Hin & Ho'). apply Hres. exists o''. split; [right; exact Hin|exact Ho'].
+  - apply (IH _ nm cs); [apply apply_create_cc_hinv; [exact I|exact (fx_good_head _ _ _ Hg)]|exact Hw|exact Hg'| | |].
+    + intros; eapply Hsame; right; eassumption.
+    + intros n2 d Hh. apply (Hav n2 d). apply apply_create_cc_holders in Hh. exact Hh.
+    + intros (o'' & Hin & Ho') x Hx. apply apply_create_cc_reserved. apply Hres; [|exact Hx]. exists o''. split; [right; exact Hin|exact Ho'].
 Qed.
 
 Lemma cached_in_held w nm c : cached_c w nm c -> In c (held_cidrs (w_ncache w)).
@@ -293,6 +305,7 @@ Section Hist3.
       pose proof (sync_node_patches po lab _ _ _ _ _ _ _ _ _ _ _ Es _ _ _ Hin) as (_ & _ & Hunheld).
       apply (apply_effects_hinv fx _ nm cs IA).
       + exact (sync_node_patches_wf po lab _ _ _ _ _ _ _ _ _ _ _ M Es nm cs o Hin).
+      + eapply sync_node_fx_good; exact Es.
       + intros nm' cs' o' Hin'. exact (sync_node_patches_same _ _ _ _ _ _ _ _ _ _ _ _ _ Es _ _ _ _ _ _ Hin' Hin).
       + intros n2 d Hh Hne x Hx. apply Hholders in Hh. destruct (h_prot w I Hs n2 d Hh) as [(m0 & E0 & Hheld)|Hcached].
         * rewrite Em in E0. inversion E0; subst m0. eapply Havoid; [exact Hin|exact Hheld|exact Hx].
@@ -301,7 +314,7 @@ Section Hist3.
       + intros (o' & Hin' & Ho') x Hx. rewrite Hac. exists m'. split; [reflexivity|].
         eapply Hkept; [exact Hin'| |exact Hx].
         exact (sync_node_applied_is_kept _ _ _ _ _ _ _ _ _ _ _ _ _ M Es _ _ _ Hin' Ho').
-    - apply (apply_effects_hinv fx _ key [] IA); [constructor| | |].
+    - apply (apply_effects_hinv fx _ key [] IA); [constructor|eapply sync_node_fx_good; exact Es| | |].
       + intros nm' cs' o' Hin'. destruct (Hno _ _ _ Hin').
       + intros n2 d _ _ x [].
       + intros _ x [].
@@ -321,7 +334,7 @@ Section Hist3.
       all: assert (M' : MapInv m') by (eapply sync_cc_inv; [exact (wi_ctl w (h_w w I) m Em)|exact Hc|exact Es]).
       all: eapply set_ctl_hinv; eassumption. }
     assert (IB : forall w1, HInv w1 -> HInv (apply_effects w1 fx)).
-    { intros w1 I1. apply (apply_effects_hinv fx w1 key [] I1); [constructor| | |].
+    { intros w1 I1. apply (apply_effects_hinv fx w1 key [] I1); [constructor|eapply sync_cc_fx_good; eassumption| | |].
       - intros nm' cs' o' Hin'. destruct (Hnp _ _ _ Hin').
       - intros n2 d _ _ x [].
       - intros _ x []. }
@@ -639,21 +652,22 @@ Section Hist3.
     - (* Crash *) apply crashed_hinv. exact I.
     - (* Construct: a new incarnation is built from the API objects *)
       destruct (w_ctl w) as [m0|] eqn:Em; [exact I|].
-      destruct (construct po lab (w_ccs w) outs svc1 svc2 (map node_view (w_nodes w))) as [[m fx] pan] eqn:Ec. cbn [fst] in *.
-      destruct Hq as [H1 H2].
+      destruct (construct po lab (with_default dp (w_ccs w)) outs svc1 svc2 (map node_view (w_nodes w))) as [[m fx] pan] eqn:Ec. cbn [fst] in *.
+      destruct Hq as (H1 & H2 & Hdp).
+      assert (Hgood : Forall good_obj (with_default dp (w_ccs w))) by (apply with_default_good; [exact Hdp|exact (wi_ccs w (h_w w I))]).
       assert (Hnp : forall nm cs o, ~ In (FxPatch nm cs o) fx).
-      { intros nm cs o Hin. unfold construct in Ec. destruct (bootstrap_ccs [] (w_ccs w) outs) as [m1 fx1] eqn:Eb.
+      { intros nm cs o Hin. unfold construct in Ec. destruct (bootstrap_ccs [] (with_default dp (w_ccs w)) outs) as [m1 fx1] eqn:Eb.
         match type of Ec with context [occupy_nodes po lab ?m3 ?ns] => destruct (occupy_nodes po lab m3 ns) as [m4 p4] end.
         inversion Ec; subst. pose proof (bootstrap_no_patch _ _ _ _ _ Eb _ Hin) as Hp. discriminate Hp. }
       assert (IB : forall w1, HInv w1 -> HInv (apply_effects w1 fx)).
-      { intros w1 I1. apply (apply_effects_hinv fx w1 [] [] I1); [constructor| | |].
+      { intros w1 I1. apply (apply_effects_hinv fx w1 [] [] I1); [constructor|eapply construct_fx_good; eassumption| | |].
         - intros nm' cs' o' Hin'. destruct (Hnp _ _ _ Hin').
         - intros n2 d _ _ x [].
         - intros _ x []. }
       apply IB.
       assert (M : forall m1, (if pan then None else Some m) = Some m1 -> MapInv m1).
       { intros m1 E. destruct pan; [discriminate|]. inversion E; subst.
-        eapply construct_inv; [exact (wi_ccs w (h_w w I))| |exact H1|exact H2|exact Ec].
+        eapply construct_inv; [exact Hgood| |exact H1|exact H2|exact Ec].
         rewrite Forall_forall. intros n Hin. apply in_map_iff in Hin. destruct Hin as (a & <- & Ha). apply wf_node_view. eapply in_anodes_wf; [exact (h_w w I)|exact Ha]. }
       pose proof I as I0. hsplit I; try assumption.
       + pose proof (h_w w I0) as Ww. destruct Ww as [a1 b1 c1 d1 e1 f1 g1 h1 i1 j1].
@@ -698,7 +712,7 @@ Section Hist3.
     intros Hq. destruct o; try (apply (step_names po lab w _); exact Hq); cbn [tame3_op] in Hq; try contradiction.
     (* Construct *)
     cbn [step created]. destruct (w_ctl w); [apply names_ok_refl|].
-      destruct (construct po lab (w_ccs w) outs svc1 svc2 (map node_view (w_nodes w))) as [[m fx] pan]. cbn [fst].
+      destruct (construct po lab (with_default dp (w_ccs w)) outs svc1 svc2 (map node_view (w_nodes w))) as [[m fx] pan]. cbn [fst].
     match goal with |- names_ok w (apply_effects ?X fx) [] => destruct (apply_effects_names fx X) as [A B] end.
     split; intros nm H; [rewrite A in H; left; exact H|rewrite B in H; destruct H].
   Qed.
@@ -740,7 +754,7 @@ Section Hist3.
         ~ In name (dead_names (w_nfeed w)) /\ Forall wf_pcidr cs /\
         (cs = [] \/ (w_synced w = false /\ forall c cn, In (PGood c cn) cs -> forall n2 d, holder w n2 d -> n2 <> name -> overlapb c d = false))
     | UCreateCC obj => good_obj obj
-    | Construct s1 s2 _ => (forall s, s1 = Some s -> wf_cidr s) /\ (forall s, s2 = Some s -> wf_cidr s)
+    | Construct s1 s2 _ dp => (forall s, s1 = Some s -> wf_cidr s) /\ (forall s, s2 = Some s -> wf_cidr s) /\ wf_dp dp
     | _ => True
     end.
 
